@@ -1614,24 +1614,29 @@ def run_check(tier, base_seed, wall, workers, do_selftest):
     chunk = 6
 
     def tasks():
-        # two streams: chunks of consecutive seeds (random plans, cold sweep, random scans) and, as every
-        # third task, the next systematic scan plan (seeds = 3 mod 12) on its own, so that the
-        # enumeration corpus chunk x call kind x version advances at a fixed share of the budget
+        # two streams: chunks of consecutive seeds (random plans, cold sweep, random warm scans) and, as every
+        # third task, in turn the next systematic scan plan, the next cold scan plan and the next cross plan,
+        # each on its own, so that the directed parts advance at a fixed share of the budget
         lo = base_seed * 1_000_000
         sys_seed = lo + (3 - lo) % 12           # systematic scan plans: seeds = 3 mod 12
         cross_seed = lo + (23 - lo) % 24        # cross plans: seeds = 23 mod 24
+        cold_seed = lo + (11 - lo) % 24         # cold scan plans: seeds = 11 mod 24
         n = 0
         while True:
             n += 1
             if n % 3 == 0:
-                if n % 2 == 1:
+                which = (n // 3) % 3
+                if which == 1:
                     yield (tier, [sys_seed], deadline)
                     sys_seed += 12
+                elif which == 2:
+                    yield (tier, [cold_seed], deadline)
+                    cold_seed += 24
                 else:
-                    yield (tier, [cross_seed], deadline)      # cross plans: seeds = 23 mod 24
+                    yield (tier, [cross_seed], deadline)
                     cross_seed += 24
             else:
-                yield (tier, [x for x in range(lo, lo + chunk) if x % 12 != 3 and x % 24 != 23], deadline)
+                yield (tier, [x for x in range(lo, lo + chunk) if x % 12 != 3 and x % 24 not in (11, 23)], deadline)
                 lo += chunk
 
     def on_result(task, r, err):
@@ -1699,14 +1704,16 @@ def run_check(tier, base_seed, wall, workers, do_selftest):
             'fault_kinds': 'pre-emption at any traced source line of parso (the only fault this property is about); '
                            'cold start (first use races) vs warm start',
             'real_code': ['all of parso (tokenizer, parser, error finder, PEP 8 normalizer, grammar loading)'],
-            'stubs': ['thread scheduling (real threads, one runnable at a time, switch points from the plan)'],
-            'atomic': ['frames of parso/pgen2 themselves (their line count is address dependent); code they call, e.g. the tokenizer run over the grammar text, is pre-emptible',
+            'stubs': ['thread scheduling (real threads, one runnable at a time, switch points from the plan)',
+                      "lock objects among parso's module globals / class attributes (stand-ins: acquire is a scheduling point)",
+                      'hash of pgen2 NFAState objects (creation number instead of address: fixes the iteration order of the table generation)'],
+            'atomic': ['pgen2._make_dfas and _simplify_dfas (one step each; the rest of the table generation is traced since round 8; with the pgen_atomic knob a whole generate_grammar call is one step)',
                        'C calls / single bytecodes (GIL)'],
             'harness_errors': agg['harness'][:5], 'lost_tasks': agg['lost'][:5],
         },
         'interpreter': {'optimize': bool(sys.flags.optimize), 'note': 'odd VERIF_SEED values run the whole check under python -O'},
         'assumptions': ['pre-emption granularity is a source line of parso; C-level races without the GIL are out of scope',
-                        'frames of the parser generator (pgen2) are not pre-emption points',
+                        'inside the simulation NFA states of the parser generator hash by creation number',
                         'reference = the same calls executed sequentially in a pristine forked interpreter'],
         'wall_s': round(wall_used, 1), 'violations': new,
     }
